@@ -254,7 +254,7 @@ def check_workbook(sub, case):
     boxes = [enc_xlsx.bounding_box(rows) for rows in sheets]
     nonstring = any(enc_xlsx.kind_of(cell) in ("n", "b", "d", "t") for rows in sheets for row in rows for cell in row)
     classes = ["workbooks", "sheets:%d" % count] + _cell_classes(sheets)
-    classes += ["option:" + name for name in ("inline", "date_1904", "visibility") if options.get(name)]
+    classes += ["option:" + name for name in ("inline", "date_1904", "visibility", "relocate") if options.get(name)]
     if options.get("names"):
         classes.append("option:names")
     folder = reused_dir("c16")
@@ -659,6 +659,9 @@ def workbook_cases(draw):
         options["date_1904"] = True
     if draw(st.integers(0, 3)) == 0:
         options["inline"] = True
+    if draw(st.integers(0, 3)) == 0:
+        # the worksheet parts lie somewhere else in the package than where most writers put them
+        options["relocate"] = True
     if draw(st.integers(0, 3)) == 0:
         options["names"] = ["Tabelle ä %d" % (count - index) for index in range(count)]
     if count >= 2 and draw(st.integers(0, 2)) == 0:
